@@ -274,6 +274,14 @@ where
                     return Outcome::fail(json!({"lib": got, "ref": rexp.is_some()}), "decryption result differs from the independent implementation");
                 }
                 o.extra += 1;
+                // the same opening through the trait-level entry point (the label match is the wrapper's validity bit)
+                let same_label = label == scheme_name(c.scheme);
+                let tsig = if same_label { pt } else { <C as Pairing>::Signature::default() };
+                let tr: Option<Vec<u8>> = <C as BlsTimeCrypt>::unseal(c.u, &c.v, &c.w, tsig, subtle::Choice::from(same_label as u8)).into();
+                if tr != r {
+                    return Outcome::fail(json!({"path": "trait", "trait": tr.is_some(), "struct": got}), format!("spec predicts {want}, the trait-level BlsTimeCrypt::unseal and TimeCryptCiphertext::decrypt disagree"));
+                }
+                o.extra += 1;
             }
             o
         }
